@@ -372,7 +372,7 @@ funcalloc(struct func *f, struct decl *d)
 	assert(!d->type->incomplete);
 	calcvla(f, d->type);
 	end = NULL;
-	if (d->type->size) {
+	if (d->type->size || !(d->type->prop & PROPVM)) {
 		end = f->end;
 		f->end = f->start;
 		v = mkintconst(d->type->size);
